@@ -433,7 +433,8 @@ class Ctx:
                 ob.status = "discharged"
             elif r == z3.sat:
                 ob.status = "failed"
-                ob.model = self.solver.model()
+                m0 = self.solver.model()
+                ob.model = self._nice_model(cond) or m0
             else:
                 ob.status = "unknown"
                 ob.detail = self.solver.reason_unknown()
@@ -452,6 +453,29 @@ class Ctx:
             else:
                 raise PathEnd()
         return ob
+
+    def _nice_model(self, cond):
+        """prefer a counter-model with small, round input values (better native replays)"""
+        saved = self.timeout_ms
+        try:
+            self.solver.set("timeout", 2000)
+            for denom, rng in ((1, 12), (4, 12), (64, 12)):
+                cons = []
+                for name, (c, ty) in self.inputs.items():
+                    if c.sort() == z3.RealSort():
+                        k = z3.Int(name + "!nice")
+                        cons += [c * denom == z3.ToReal(k), k >= -rng * denom, k <= rng * denom]
+                    elif c.sort() == z3.IntSort():
+                        cons += [c >= -60, c <= 60]
+                if not cons:
+                    return None
+                if self.solver.check(z3.Not(cond), *cons) == z3.sat:
+                    return self.solver.model()
+        except z3.Z3Exception:
+            pass
+        finally:
+            self.solver.set("timeout", saved)
+        return None
 
     def _check_region(self, cond, region):
         """known finding: the obligation is allowed to fail inside `region` (predicate over the inputs).
